@@ -98,8 +98,15 @@ class fake_asdf:
         return False
 
 
+def _strip(x):
+    """the value as held by a float32 column: one outer rounding marker more or less is the same stored number"""
+    if z3.is_app(x.e) and x.e.decl().eq(arrays._RND32):
+        return Sym(x.e.arg(0))
+    return x
+
+
 def same(a, b):
-    a, b = core.lift(a), core.lift(b)
+    a, b = _strip(core.lift(a)), _strip(core.lift(b))
     if a.e.eq(b.e):
         return z3.BoolVal(True)
     return core._b(a == b)
@@ -108,6 +115,8 @@ def same(a, b):
 def body(N, load, colname, fdt, dep, lightcone):
     c = ctx()
     case = dict(N=N, load=None if load is None else list(load), colname=colname, float_dtype=fdt, deprecated=dep, lightcone=lightcone)
+    c_ = ctx()
+    c_.extra['mark_precision'] = True      # float32 casts are opaque rounding markers: decoding in the wrong precision is a different term
     c.extra['case'] = case
     c.extra['keyprefix'] = 'read:'
     box = Sym(c.input('BoxSize', z3.RealSort()))
